@@ -87,7 +87,7 @@ def tech_tie(part):
 
 PROPS = {
     "C05": {
-        "modules": ["Qvnt.Props.C05"],
+        "modules": ["Qvnt.Props.C05", "Qvnt.Props.Code.C05"],
         "tie": [tie(r".*_op_eq|rotate_eq|negWord_eq|forEach_eq", sources=r"UNSUPPORTED (\w+\.rs: \w+\.rs::(atomic_op|struct)|math/mod\.rs|dispatch\.rs: dispatch\.rs::for_each:)"), tie2(r"quant_\w+_eq|multi_apply_eq|single_apply_eq|parTwins_all", r"UNSUPPORTED (quant\.rs|mod\.rs: operator/(single|multi)/mod\.rs::apply)", creg=True)],
         "suites": [suite("hist", dict(count=400, max_n=5, steps=14), dict(count=4000, max_n=8, steps=200)),
                    suite("intnu", dict(count=150), dict(count=3000))],
